@@ -360,52 +360,121 @@ theorem lookup_append_none {κ β : Type} [BEq κ] (l₁ l₂ : List (κ × β))
     · rename_i heq; simp [heq] at h
     · rename_i heq; simp only [heq] at h; exact ih h
 
-/-- invariant of the prefix tables: a prefix that is written for a namespace is declared for that namespace,
-    and generated prefixes are numbered below the counter -/
+theorem lookup_none_of_not_mem' {κ β : Type} [BEq κ] [LawfulBEq κ] (l : List (κ × β)) (k : κ)
+    (h : k ∉ l.map (·.1)) : l.lookup k = none := by
+  induction l with
+  | nil => rfl
+  | cons kv r ih =>
+    obtain ⟨k', v'⟩ := kv
+    simp only [List.map_cons, List.mem_cons, not_or] at h
+    have : (k == k') = false := by simpa using h.1
+    simp only [List.lookup, this]
+    exact ih h.2
+
+theorem nodup_map_of_inj' {α β : Type} (f : α → β) (hf : ∀ a b, f a = f b → a = b) (l : List α) (h : l.Nodup) :
+    (l.map f).Nodup := by
+  induction l with
+  | nil => exact List.nodup_nil
+  | cons x xs ih =>
+    simp only [List.nodup_cons, List.map_cons] at h ⊢
+    refine ⟨?_, ih h.2⟩
+    intro hc
+    obtain ⟨y, hy, hxy⟩ := List.mem_map.mp hc
+    rw [hf _ _ hxy] at hy
+    exact h.1 hy
+
+/-! ### the `while` loop of `get_namespace_prefix` finds a free prefix, whatever is pinned already -/
+
+theorem nodup_subset_length {α : Type} [DecidableEq α] (l₁ l₂ : List α) (hn : l₁.Nodup) (hs : ∀ x ∈ l₁, x ∈ l₂) :
+    l₁.length ≤ l₂.length := by
+  induction l₁ generalizing l₂ with
+  | nil => simp
+  | cons x r ih =>
+    simp only [List.nodup_cons] at hn
+    have hx : x ∈ l₂ := hs x List.mem_cons_self
+    have hr : ∀ y ∈ r, y ∈ l₂.erase x := by
+      intro y hy
+      have hne : y ≠ x := fun h => hn.1 (h ▸ hy)
+      exact (List.mem_erase_of_ne hne).mpr (hs y (List.mem_cons_of_mem _ hy))
+    have := ih (l₂.erase x) hn.2 hr
+    rw [List.length_erase_of_mem hx] at this
+    have hpos : 0 < l₂.length := List.length_pos_of_mem hx
+    simp only [List.length_cons]
+    omega
+
+theorem firstFree_spec (keys : List Pref) (fuel k : Nat) :
+    Pref.gen (firstFree keys fuel k) ∉ keys ∨
+    (firstFree keys fuel k = k + fuel ∧ ∀ i, i < fuel → Pref.gen (k + i) ∈ keys) := by
+  induction fuel generalizing k with
+  | zero => right; exact ⟨rfl, fun i hi => by omega⟩
+  | succ fuel ih =>
+    simp only [firstFree]
+    by_cases hc : keys.contains (.gen k) = true
+    · simp only [hc, if_true]
+      rcases ih (k + 1) with h | ⟨h1, h2⟩
+      · exact Or.inl h
+      · right
+        refine ⟨by omega, ?_⟩
+        intro i hi
+        cases i with
+        | zero => simpa using hc
+        | succ i =>
+          have := h2 i (by omega)
+          have e : k + 1 + i = k + (i + 1) := by omega
+          rw [e] at this
+          exact this
+    · simp only [hc, Bool.false_eq_true, if_false]
+      left
+      simpa using hc
+
+theorem firstFree_free (keys : List Pref) (k : Nat) : Pref.gen (firstFree keys (keys.length + 1) k) ∉ keys := by
+  rcases firstFree_spec keys (keys.length + 1) k with h | ⟨_, h2⟩
+  · exact h
+  · exfalso
+    have hn : ((List.range (keys.length + 1)).map (fun i => Pref.gen (k + i))).Nodup := by
+      apply nodup_map_of_inj' _ _ _ List.nodup_range
+      intro a b hab
+      injection hab with hab
+      omega
+    have := nodup_subset_length _ keys hn (by
+      intro x hx
+      obtain ⟨i, hi, rfl⟩ := List.mem_map.mp hx
+      exact h2 i (by simpa using hi))
+    simp only [List.length_map, List.length_range] at this
+    omega
+
+/-- invariant of the prefix tables: a prefix that is written for a namespace is declared for that namespace -/
 structure Prefs.Inv (p : Prefs) : Prop where
   back : ∀ ns pf, p.prefmap.lookup ns = some pf → p.nsmap.lookup pf = some ns
-  fresh : ∀ k ns, p.nsmap.lookup (.gen k) = some ns → k < p.counter
 
 theorem Prefs.get_inv (p : Prefs) (h : p.Inv) (ns : String) : (p.get ns).2.Inv := by
   unfold Prefs.get
   cases hl : p.prefmap.lookup ns with
   | some pf => simpa using h
   | none =>
-    have hfree : p.nsmap.lookup (.gen p.counter) = none := by
-      cases hq : p.nsmap.lookup (.gen p.counter) with
-      | none => rfl
-      | some x => exact absurd (h.fresh _ _ hq) (Nat.lt_irrefl _)
-    refine ⟨?_, ?_⟩
-    · intro ns' pf hp
-      simp only at hp ⊢
-      cases ho : p.prefmap.lookup ns' with
-      | some pf' =>
-        rw [lookup_append_some _ _ _ _ ho] at hp
+    have hfree : p.nsmap.lookup (.gen (firstFree (p.nsmap.map (·.1)) (p.nsmap.length + 1) p.counter)) = none := by
+      apply lookup_none_of_not_mem'
+      have := firstFree_free (p.nsmap.map (·.1)) p.counter
+      simpa using this
+    refine ⟨?_⟩
+    intro ns' pf hp
+    simp only at hp ⊢
+    cases ho : p.prefmap.lookup ns' with
+    | some pf' =>
+      rw [lookup_append_some _ _ _ _ ho] at hp
+      injection hp with hp; subst hp
+      exact lookup_append_some _ _ _ _ (h.back _ _ ho)
+    | none =>
+      rw [lookup_append_none _ _ _ ho] at hp
+      simp only [List.lookup] at hp
+      split at hp
+      · rename_i heq
         injection hp with hp; subst hp
-        exact lookup_append_some _ _ _ _ (h.back _ _ ho)
-      | none =>
-        rw [lookup_append_none _ _ _ ho] at hp
-        simp only [List.lookup] at hp
-        split at hp
-        · rename_i heq
-          injection hp with hp; subst hp
-          have : ns' = ns := by simpa using heq
-          subst this
-          rw [lookup_append_none _ _ _ hfree]
-          simp [List.lookup]
-        · cases hp
-    · intro k ns' hk
-      simp only at hk ⊢
-      cases ho : p.nsmap.lookup (.gen k) with
-      | some x => exact Nat.lt_succ_of_lt (h.fresh _ _ ho)
-      | none =>
-        rw [lookup_append_none _ _ _ ho] at hk
-        simp only [List.lookup] at hk
-        split at hk
-        · rename_i heq
-          have : k = p.counter := by simpa using heq
-          omega
-        · cases hk
+        have : ns' = ns := by simpa using heq
+        subst this
+        rw [lookup_append_none _ _ _ hfree]
+        simp [List.lookup]
+      · cases hp
 
 theorem Prefs.get_prefmap_mono (p : Prefs) (ns ns' : String) (pf : Pref) (h : p.prefmap.lookup ns' = some pf) :
     (p.get ns).2.prefmap.lookup ns' = some pf := by
@@ -426,7 +495,7 @@ theorem Prefs.get_has (p : Prefs) (ns : String) : ∃ pf, (p.get ns).2.prefmap.l
   cases hl : p.prefmap.lookup ns with
   | some pf => exact ⟨pf, by simpa using hl⟩
   | none =>
-    refine ⟨.gen p.counter, ?_⟩
+    refine ⟨.gen (firstFree (p.nsmap.map (·.1)) (p.nsmap.length + 1) p.counter), ?_⟩
     simp only
     rw [lookup_append_none _ _ _ hl]
     simp [List.lookup]
@@ -537,89 +606,5 @@ theorem lookup_none_of_not_mem {κ β : Type} [BEq κ] [LawfulBEq κ] (l : List 
     have : (k == k') = false := by simpa using h.1
     simp only [List.lookup, this]
     exact ih h.2
-
-/-- `reset_interface` establishes the invariant when the static table is a bijection that knows neither the
-    target namespace nor the prefix `tns` -/
-theorem init_inv (I : IState) (h1 : (I.staticNs.map (·.1)).Nodup)
-    (h3 : I.tns ∉ I.staticNs.map (·.2)) (h4 : "tns" ∉ I.staticNs.map (·.1)) : (Prefs.init I).Inv := by
-  have hB : ∀ p n, (p, n) ∈ I.staticNs →
-      (I.staticNs.map (fun pn => (Pref.named pn.1, pn.2))).lookup (.named p) = some n := by
-    intro p n hm
-    apply lookup_of_mem_nodup
-    · exact List.mem_map.mpr ⟨(p, n), hm, rfl⟩
-    · rw [List.map_map]
-      have : ((fun x : Pref × String => x.1) ∘ fun pn : String × String => (Pref.named pn.1, pn.2)) =
-          (Pref.named ∘ fun pn : String × String => pn.1) := rfl
-      rw [this, ← List.map_map]
-      exact nodup_map_of_inj Pref.named (fun a b hab => by injection hab) _ h1
-  refine ⟨?_, ?_⟩
-  · intro ns pf hp
-    simp only [Prefs.init] at hp ⊢
-    cases ho : (I.staticNs.map (fun pn => (pn.2, Pref.named pn.1))).lookup ns with
-    | some pf' =>
-      rw [lookup_append_some _ _ _ _ ho] at hp
-      injection hp with hp; subst hp
-      have hm := lookup_mem _ _ _ ho
-      obtain ⟨⟨p, n⟩, hm', heq⟩ := List.mem_map.mp hm
-      injection heq with e1 e2
-      simp only at e1 e2
-      subst e1; subst e2
-      exact lookup_append_some _ _ _ _ (hB p n hm')
-    | none =>
-      rw [lookup_append_none _ _ _ ho] at hp
-      simp only [List.lookup] at hp
-      split at hp
-      · rename_i heq
-        injection hp with hp; subst hp
-        have : ns = I.tns := by simpa using heq
-        subst this
-        have hn : (I.staticNs.map (fun pn => (Pref.named pn.1, pn.2))).lookup (.named "tns") = none := by
-          apply lookup_none_of_not_mem
-          intro hc
-          obtain ⟨x, hx, hx'⟩ := List.mem_map.mp hc
-          obtain ⟨⟨p, n⟩, hpn, rfl⟩ := List.mem_map.mp hx
-          simp only at hx'
-          injection hx' with hx'
-          exact h4 (List.mem_map.mpr ⟨(p, n), hpn, hx'⟩)
-        rw [lookup_append_none _ _ _ hn]
-        simp [List.lookup]
-      · cases hp
-  · intro k ns hk
-    simp only [Prefs.init] at hk
-    have hn : (I.staticNs.map (fun pn => (Pref.named pn.1, pn.2))).lookup (.gen k) = none := by
-      apply lookup_none_of_not_mem
-      intro hc
-      obtain ⟨x, hx, hx'⟩ := List.mem_map.mp hc
-      obtain ⟨⟨p, n⟩, _, rfl⟩ := List.mem_map.mp hx
-      simp at hx'
-    rw [lookup_append_none _ _ _ hn] at hk
-    simp only [List.lookup] at hk
-    rw [show (Pref.gen k == Pref.named "tns") = false from by simp] at hk
-    cases hk
-
-theorem init_tns (I : IState) (h3 : I.tns ∉ I.staticNs.map (·.2)) :
-    (Prefs.init I).prefmap.lookup I.tns = some (.named "tns") := by
-  simp only [Prefs.init]
-  have hn : (I.staticNs.map (fun pn => (pn.2, Pref.named pn.1))).lookup I.tns = none := by
-    apply lookup_none_of_not_mem
-    intro hc
-    obtain ⟨x, hx, hx'⟩ := List.mem_map.mp hc
-    obtain ⟨⟨p, n⟩, hpn, rfl⟩ := List.mem_map.mp hx
-    simp only at hx'
-    exact h3 (List.mem_map.mpr ⟨(p, n), hpn, hx'⟩)
-  rw [lookup_append_none _ _ _ hn]
-  simp [List.lookup]
-
-theorem init_static (I : IState) (h2 : (I.staticNs.map (·.2)).Nodup) (p n : String) (hm : (p, n) ∈ I.staticNs) :
-    (Prefs.init I).prefmap.lookup n = some (.named p) := by
-  simp only [Prefs.init]
-  apply lookup_append_some
-  apply lookup_of_mem_nodup
-  · exact List.mem_map.mpr ⟨(p, n), hm, rfl⟩
-  · rw [List.map_map]
-    have : ((fun x : String × Pref => x.1) ∘ fun pn : String × String => (pn.2, Pref.named pn.1)) =
-        (fun pn : String × String => pn.2) := rfl
-    rw [this]
-    exact h2
 
 end SpyneModel.Wsdl
